@@ -124,3 +124,12 @@ def restate_f64_primitives(ctx, roots, what, shallow=()):
     ctx.note("%s.C20-a: scalar operations reachable from %s: %s" % (ctx.pid, what, sorted(used)))
     run_restated(ctx, [("C20", {"C20-a": "for T = f64 the scalar operations %s is written in (%s) are std's" % (what, ", ".join(sorted(used)))})],
                  keep=lambda rule, construct: _f64_construct_method(construct) in used)
+
+
+def restate_sampler_is_callers(ctx):
+    """C05-b restated for the properties whose formulas read the sampler's loop signature (L, u, V, momenta, jacobian): the sampler
+    that build_sampler returns is the one assembled in that call, and its `loop_signature` is the caller's argument.  (A sampler
+    memoised on the graph alone silently carries another call's routing.)"""
+    sel = ("ok-payload-built-here", "ok-payload-floor", "signature-is-parameter", "table-moved-unmodified")
+    run_restated(ctx, [("C05", {"C05-b": "the sampler returned by build_sampler is assembled in that call from its own table and the caller's loop signature"})],
+                 keep=lambda rule, construct: construct in sel)
